@@ -554,6 +554,15 @@ def check_dag_run(proj, expected, rc, so, se, alone=None):
                 for desc in g.desc_counts():
                     if desc in log:
                         problems.append('%s: its log contains assertion "%s" of %s, which it does not import' % (p, desc, g.path))
+            # "every assertion appears exactly once in that file's log": an assertion of an imported file is evaluated once per
+            # validation however many import expressions (under whatever spellings) reach that file
+            for g in proj.files:
+                if g is f or g.path not in allowed:
+                    continue
+                for desc, cnt in g.desc_counts().items():
+                    if cnt == 1 and log.count(desc) > 1:
+                        problems.append('%s: its log contains assertion "%s" of the imported %s %d times (the file is imported through %s), at most once expected' % (
+                            p, desc, g.path, log.count(desc), 'several import expressions'))
     logs = [own_log(so, pos, end) for pos, end, _ in spans]
     if marks:
         for g in proj.tests:
